@@ -45,10 +45,12 @@ def wrap_trace(tid, rng, stacking):
         X, y = data(rng, n, classes, base)
         base += 50
         del stubs.LOG[:]
+        # fit parameters (sample weights) travel to the members like in a direct fit
+        sw = numpy.array([float(rng.randint(1, 3)) for _ in range(n)]) if rng.random() < 0.5 else None
         with warnings.catch_warnings():
             warnings.simplefilter("ignore")
             try:
-                ret = w.fit(X, y)
+                ret = w.fit(X, y) if sw is None else w.fit(X, y, sample_weight=sw)
             except Exception as e:
                 t["ev"].append(dict(a="raised", err=repr(e)[:120]))
                 return t
@@ -59,8 +61,9 @@ def wrap_trace(tid, rng, stacking):
         mem = []
         for m in inner:
             f = byobj.get(id(m))
-            mem.append(dict(rows=f["rows"], ys=f["ys"]) if f else dict(rows=[], ys=[]))
-        t["ev"].append(dict(a="fit", rows=[int(v) for v in X[:, 0]], ys=[int(v) for v in y], members=mem, returns_self=ret is w))
+            mem.append(dict(rows=f["rows"], ys=f["ys"], ws=f.get("ws", [])) if f else dict(rows=[], ys=[], ws=[]))
+        t["ev"].append(dict(a="fit", rows=[int(v) for v in X[:, 0]], ys=[int(v) for v in y], ws=[] if sw is None else [int(v) for v in sw],
+                            members=mem, returns_self=ret is w))
         P = numpy.array([list(X[rng.randrange(n)]) for _ in range(3)] + [[900 + q, 1.0] for q in range(2)], dtype=numpy.float64)
         out = w.transform(P)
         for q in range(P.shape[0]):
